@@ -5,8 +5,9 @@
 
   Modelled: iso8601, gregory, buddhist, roc, japanese (all four are the ISO date under another year numbering),
   coptic, ethiopic, ethioaa, indian, islamic-civil, islamic-tbla, persian (day-count calendars).
-  Not modelled (astronomical or table driven inside the library): chinese, dangi, hebrew, islamic,
-  islamic-umalqura, japanext — for those only the crate's own glue (Model/CalGlue.lean) is modelled and the laws of
+  Modelled separately: hebrew (Model/Hebrew.lean: molad arithmetic, gate tables, keviyot).
+  Not modelled (astronomical or table driven inside the library): chinese, dangi, islamic, islamic-umalqura,
+  japanext — for those only the crate's own glue (Model/CalGlue.lean) is modelled and the laws of
   Spec/CalLaws.lean are evaluated on the fields the implementation reports.
 -/
 import TemporalModel.Model.Partial
